@@ -113,6 +113,34 @@ func curatedWorlds() []wWorld {
 		genLocs(rand.New(rand.NewSource(7)), &fl)
 		out = append(out, wWorld{Files: []wFile{fl}, Targets: []string{"wide.proto"}})
 	}
+	// two-digit indices on two levels at once: the paths of distinct declarations read the same
+	// once their components are written side by side ([4,1,2,20] and [4,12,2,0]; [5,1,2,10] and
+	// [5,11,2,0]; [6,2,2,13] and [6,22,2,3]) - every one has its own location
+	{
+		fl := file("grid.proto", "grid", "proto3")
+		for i := 0; i < 24; i++ {
+			m := wMsg{Head: mh(fmt.Sprintf("G%d", i)), Nested: []wMsg{}}
+			en := wEnum{Name: fmt.Sprintf("GE%d", i)}
+			sv := wService{Name: fmt.Sprintf("GS%d", i)}
+			for k := 0; k < 24; k++ {
+				m.Head.Fields = append(m.Head.Fields, f(fmt.Sprintf("f%d", k), k+1, 1, 5, ""))
+				en.Values = append(en.Values, wEnumVal{fmt.Sprintf("GE%d_V%d", i, k), int32(k)})
+				sv.Methods = append(sv.Methods, wMethod{Name: fmt.Sprintf("Do%d", k), Input: ".grid.G0", Output: ".grid.G1"})
+			}
+			if i == 1 || i == 12 {
+				for k := 0; k < 14; k++ {
+					n := wMsg{Head: mh(fmt.Sprintf("N%d", k), f("v", 1, 1, 5, "")), Nested: []wMsg{}}
+					n.Head.Enums = []wEnum{{Name: "E", Values: []wEnumVal{{fmt.Sprintf("G%d_N%d_ZERO", i, k), 0}}}}
+					m.Nested = append(m.Nested, n)
+				}
+			}
+			fl.Msgs = append(fl.Msgs, m)
+			fl.Enums = append(fl.Enums, en)
+			fl.Services = append(fl.Services, sv)
+		}
+		genLocs(rand.New(rand.NewSource(13)), &fl)
+		out = append(out, wWorld{Files: []wFile{fl}, Targets: []string{"grid.proto"}})
+	}
 	// a nesting chain deeper than any plausible fixed bound, referenced from both ends
 	{
 		fl := file("deep.proto", "deep", "proto3")
